@@ -68,6 +68,9 @@ let check_line (line : string) : unit =
       if not rp && not mp then begin
         if get "reads" <> ids (t_reads t) then disagree "reads" (ids (t_reads t)) (get "reads");
         if get "writes" <> ids (t_writes t) then disagree "writes" (ids (t_writes t)) (get "writes");
+        (* C16: what a node reports is the UNION of its leaves' accesses (as sets: order and repeats do not matter) *)
+        (let set s = List.sort_uniq compare (if s = "-" || s = "" then [] else split_on ',' s) in
+         if set (get "reads") <> set (ids (t_reads t)) || set (get "writes") <> set (ids (t_writes t)) then oracle "access_union");
         if get "setup" <> ids (t_leaves t) then begin
           disagree "setup" (ids (t_leaves t)) (get "setup");
           let got = List.sort compare (if get "setup" = "-" then [] else List.map int_of_string (split_on ',' (get "setup"))) in
